@@ -8,7 +8,7 @@ EDGE = {
     'channel': [0, 1, 7, 8, 14, 15],
     'frame_type': [0, 1, 3, 4, 7],
     'frame_value': [0, 1, 7, 8, 15],
-    'pitch': [-8192, -8191, -129, -128, -127, -1, 0, 1, 127, 128, 129, 8190, 8191],
+    'pitch': [-8192, -8191, -129, -128, -127, -2, -1, 0, 1, 127, 128, 129, 8190, 8191],
     'pos': [0, 1, 127, 128, 129, 255, 256, 16382, 16383],
 }
 
@@ -87,7 +87,8 @@ def latin1_text(max_size=40):
     base = sizes.flatmap(lambda n: st.lists(alpha, min_size=n, max_size=n)).map(''.join)
     # C strings with their terminator, NUL padding, format-string look-alikes
     return st.one_of(base, base, base, base.map(lambda t: t + '\x00'), st.sampled_from(['\x00', 'ab\x00\x00', '{0}', '{verse 1}',
-                                                                                      'intro}', '{{x}}', '%s %d']))
+                                                                                      'intro}', '{{x}}', '%s %d', '\xef\xbb\xbfabc',
+                                                                                      '\xef\xbb\xbf\xe6\xad\x8c \xc3\xa9', '\xff\xfeab', '\ufeffx'.encode('utf-8').decode('latin1')]))
 
 
 def _edge_int(lo, hi):
